@@ -78,7 +78,10 @@ META = {
     ],
     "partial": [
         "IEEE rounding is not modelled: numerical outputs are compared at 64 eps relative (+2 eps per summand for "
-        "means, condition-aware for projections); theorems are over the reals",
+        "means, condition-aware for projections); theorems are over the reals. The DISCRETE results are tied to the float code "
+        "by theorems over arbitrary perturbed distances / quotients within delta (knn_indices_robust, knn_filter_robust, "
+        "nbr_filter_robust, voxel_key_robust): outside the band the harness excludes, the selection of the float code is the "
+        "model's; that the code's distances are within delta = half that band (128 eps relative) of the exact ones is measured by the harness (values at 64 eps), not proved",
         "equivariance of random_filter / voxel_filter(random=True) in distribution rides on the RNG contract; the "
         "theorems are stated for every draw and every argsort kernel (random_filter_perm, voxel_random_perm)",
     ],
